@@ -220,6 +220,11 @@ def check_vector(v):
     cmp("Geometry.merge_intervals", v["merged"][0], lambda: _rows(geo.merge_intervals(table(srt), 0), names))
     cmp("Geometry.sort", v["sorted"], lambda: _rows(geo.sort(table(es)), names))
     cmp("Geometry.clip", v["clip"], lambda: _rows(geo.clip(table(stick)), names))
+    # an empty interval at the first base of every contig but the first (an insertion point): sorting and merging keep it on its own contig
+    if len(G) >= 2:
+        es0 = es + [{"c": c + 1, "s": 0, "e": 0, "st": "+"} for c in range(1, len(G))]
+        want0 = [{"c": e["c"], "s": e["s"], "e": e["e"]} for e in sorted(es0, key=lambda e: (e["c"], e["s"], e["e"]))]
+        cmp("Geometry.sort[with empty intervals at contig starts]", want0, lambda: _rows(geo.sort(table(es0)), names))
     cmp("Geometry.extend_to_size", v["extend"][1], lambda: _rows(geo.extend_to_size(table(es), 2), names), length=2)
     # concatenated coordinates: bijection on valid positions
     go = g.get_genome_context().global_offset
